@@ -142,6 +142,7 @@ func wellFormed(b []byte) error {
 
 type c12Cfg struct {
 	sso, slo   string
+	sloResp    string // ResponseLocation of the IdP's SingleLogoutService endpoints ("" = none): where logout RESPONSES may go, never requests
 	entityID   string
 	sign       string // "", rsa, ec
 	format     saml.NameIDFormat
@@ -154,7 +155,7 @@ func (k c12Cfg) String() string {
 	if k.forceAuthn != nil {
 		fa = fmt.Sprint(*k.forceAuthn)
 	}
-	return fmt.Sprintf("sso=%q slo=%q entityID=%q sign=%q format=%q forceAuthn=%s authnCtx=%v", k.sso, k.slo, k.entityID, k.sign, k.format, fa, k.authnCtx != nil)
+	return fmt.Sprintf("sso=%q slo=%q sloResponseLocation=%q entityID=%q sign=%q format=%q forceAuthn=%s authnCtx=%v", k.sso, k.slo, k.sloResp, k.entityID, k.sign, k.format, fa, k.authnCtx != nil)
 }
 
 var c12Endpoints = []string{"https://idp.example.com/sso", "https://idp.example.com/sso?a=b", "https://idp.example.com/sso?tenant=x%26y&z=%C3%A9+1", "https://idp.example.com/sso?", "https://idp.example.com:8443/deep/path/sso?idp=7", "https://idp.example.com/sso?a=1&a=2&b"}
@@ -183,6 +184,9 @@ func runC12(c *core.Ctx) {
 		if r.Intn(3) == 0 {
 			k.authnCtx = &saml.RequestedAuthnContext{Comparison: []string{"exact", "exact", "", "minimum", "better"}[r.Intn(5)], AuthnContextClassRef: "urn:oasis:names:tc:SAML:2.0:ac:classes:PasswordProtectedTransport"}
 		}
+		if r.Intn(3) == 0 {
+			k.sloResp = strings.Replace(k.slo, "/slo", "/slo-return", 1)
+		}
 		c12Sequence(c, k, 1+r.Intn(c.Pick(12, 200))+c.Pick(60, 300)*boolInt(r.Intn(12) == 0))
 	}
 }
@@ -194,7 +198,7 @@ func c12SP(k c12Cfg) (*saml.ServiceProvider, *fx.KeyPair) {
 	}
 	md := so.IDPMetadata("meta-one-signing")
 	md.IDPSSODescriptors[0].SingleSignOnServices = []saml.Endpoint{{Binding: saml.HTTPRedirectBinding, Location: k.sso}, {Binding: saml.HTTPPostBinding, Location: k.sso}}
-	md.IDPSSODescriptors[0].SingleLogoutServices = []saml.Endpoint{{Binding: saml.HTTPRedirectBinding, Location: k.slo}, {Binding: saml.HTTPPostBinding, Location: k.slo}}
+	md.IDPSSODescriptors[0].SingleLogoutServices = []saml.Endpoint{{Binding: saml.HTTPRedirectBinding, Location: k.slo, ResponseLocation: k.sloResp}, {Binding: saml.HTTPPostBinding, Location: k.slo, ResponseLocation: k.sloResp}}
 	sp := &saml.ServiceProvider{Key: kp.Key, Certificate: kp.Cert, EntityID: k.entityID, MetadataURL: mustURL(so.SPMeta), AcsURL: mustURL(so.SPACS), SloURL: mustURL(so.SPSLO), IDPMetadata: md,
 		AuthnNameIDFormat: k.format, ForceAuthn: k.forceAuthn, RequestedAuthnContext: k.authnCtx}
 	switch k.sign {
@@ -285,6 +289,14 @@ func c12Sequence(c *core.Ctx, k c12Cfg, length int) {
 		}
 		if kind >= 4 {
 			param = "SAMLResponse"
+			// a logout response may be sent to the endpoint's ResponseLocation when it has one, or to its Location: no verdict
+			// between the two, but everything (URL or form action, Destination) has to agree on the one chosen
+			if k.sloResp != "" {
+				marker := mustURL(k.sloResp).Path
+				if (u != nil && u.Path == marker) || (page != nil && bytes.Contains(page, []byte(marker+"?")) || page != nil && bytes.Contains(page, []byte(marker+"\""))) {
+					endpoint = k.sloResp
+				}
+			}
 		}
 		var msg []byte
 		bad := func(clause, m string) {
